@@ -30,6 +30,7 @@ type DB struct {
 	N     *nitro.Nitro
 	A     *galloc.Alloc // nil in Go-managed mode
 	KV    bool          // key-only comparator over KV items
+	Rev   bool          // custom comparator: descending byte order over the whole item
 	Delta bool
 	cfg   nitro.Config
 }
@@ -37,15 +38,56 @@ type DB struct {
 type DBOpt struct {
 	Mem   string // "go" | "poison" | "pageguard"
 	KV    bool
+	Rev   bool
 	Delta bool
 	Alloc *galloc.Alloc // share an allocator (restore into fresh instance)
 }
 
+func revCompare(a, b []byte) int { return bytes.Compare(b, a) }
+
+// KeyLess orders keys the way the database's comparator does.
+func (d *DB) KeyLess(a, b string) bool {
+	if d.Rev {
+		return a > b
+	}
+	return a < b
+}
+
+// NewModel returns a reference set ordered like the database.
+func (d *DB) NewModel() *Model {
+	m := NewModel()
+	m.less = d.KeyLess
+	return m
+}
+
+// InsCmp orders raw item pointers as nitro's insert comparator does: (key, bornSn).
+func (d *DB) InsCmp() func(a, b unsafe.Pointer) int {
+	return func(a, b unsafe.Pointer) int {
+		ba, _, da := nitro.VerifItemMeta(a)
+		bb, _, db := nitro.VerifItemMeta(b)
+		var v int
+		switch {
+		case d.KV:
+			v = nitro.CompareKV(da, db)
+		case d.Rev:
+			v = revCompare(da, db)
+		default:
+			v = bytes.Compare(da, db)
+		}
+		if v == 0 {
+			v = int(ba) - int(bb)
+		}
+		return v
+	}
+}
+
 func OpenDB(o DBOpt) *DB {
 	cfg := nitro.DefaultConfig()
-	d := &DB{KV: o.KV, Delta: o.Delta}
+	d := &DB{KV: o.KV, Rev: o.Rev && !o.KV, Delta: o.Delta}
 	if o.KV {
 		cfg.SetKeyComparator(nitro.CompareKV)
+	} else if o.Rev {
+		cfg.SetKeyComparator(revCompare)
 	}
 	switch o.Mem {
 	case "poison", "pageguard":
@@ -71,7 +113,7 @@ func OpenDB(o DBOpt) *DB {
 // Fresh returns a new empty instance with the same configuration (and the
 // same allocator, so the live-set spans both).
 func (d *DB) Fresh() *DB {
-	n := &DB{KV: d.KV, Delta: d.Delta, A: d.A, cfg: d.cfg}
+	n := &DB{KV: d.KV, Rev: d.Rev, Delta: d.Delta, A: d.A, cfg: d.cfg}
 	n.N = nitro.NewWithConfig(d.cfg)
 	return n
 }
@@ -119,6 +161,7 @@ type Entry struct {
 
 type Model struct {
 	live map[string][]byte
+	less func(a, b string) bool // nil = ascending byte order
 }
 
 func NewModel() *Model { return &Model{live: map[string][]byte{}} }
@@ -145,11 +188,16 @@ func (m *Model) Snapshot() []Entry {
 	for k, v := range m.live {
 		out = append(out, Entry{k, v})
 	}
-	sort.Slice(out, func(i, j int) bool { return out[i].Key < out[j].Key })
+	less := m.less
+	if less == nil {
+		less = func(a, b string) bool { return a < b }
+	}
+	sort.Slice(out, func(i, j int) bool { return less(out[i].Key, out[j].Key) })
 	return out
 }
 func (m *Model) Clone() *Model {
 	c := NewModel()
+	c.less = m.less
 	for k, v := range m.live {
 		c.live[k] = v
 	}
